@@ -8,10 +8,12 @@ Part 5: `_grouped_ys` / `raw_learners`.
 -/
 import CobaVerif.Model.C18
 import CobaVerif.Generated.C18Modes
+import CobaVerif.Generated.C18Defaults
 import Mathlib.Tactic.Linarith
 import Mathlib.Tactic.Ring
 import Mathlib.Tactic.FieldSimp
 import Mathlib.Algebra.Order.Field.Rat
+import Mathlib.Data.Rat.Floor
 import Mathlib.Algebra.BigOperators.Group.List.Basic
 import Mathlib.Data.List.Basic
 import Mathlib.Data.List.Range
@@ -4137,5 +4139,141 @@ theorem stale_cache_counterexample' :
     (runInc false cexInc ⟨[], none⟩).groups.length = 1 ∧ (runs (insertedRows cexInc)).length = 2 ∧
     (runInc true cexInc ⟨[], none⟩).groups.length = 2 := by decide +kernel
 
+/-! ## Part 14 (Phase 5): `sorted(XY.items())` inside the model -/
+
+theorem rawContrastPy_eq_spec (r : Result) (sels1 sels2) (pc : List Col) (x : XSpec) (span : Option Nat) (labs) :
+    rawContrastPy r sels1 sels2 pc x span labs = rawContrastPyS r sels1 sels2 pc x span labs := by
+  unfold rawContrastPy rawContrastPyS rawContrastPyWith
+  have := rawContrast_eq_spec r sels1 sels2 pc x span true
+  unfold rawContrast rawContrastS at this
+  rw [this]
+
+theorem plotContrastPy_eq_spec (r : Result) (sels1 sels2) (pc : List Col) (x : XSpec) (span : Option Nat) (labs)
+    (mode : CMode) (ci : Option CiFn) (errevery : Option Nat) (kind : XKind) :
+    plotContrastPy r sels1 sels2 pc x span labs mode ci errevery kind =
+    plotContrastPyS r sels1 sels2 pc x span labs mode ci errevery kind := by
+  unfold plotContrastPy plotContrastPyS plotContrastPyWith
+  have := rawContrastPy_eq_spec r sels1 sels2 pc x span labs
+  unfold rawContrastPy rawContrastPyS at this
+  rw [this]
+
+theorem orderRawPy_ok_iff (labs : List ((Key × Key) × PyVal)) (raw : List ((Key × Key) × List (Rat × Rat)))
+    (h2 : 2 ≤ raw.length) :
+    (∃ tbl, orderRawPy labs raw = .ok tbl) ↔ ∃ c, c ≠ PyClass.none ∧ ∀ e ∈ raw, pyClass (labOf labs e.1) = c := by
+  have key := pySorted_ok_iff (raw.map (fun e => labOf labs e.1)) (by simpa using h2)
+  constructor
+  · rintro ⟨tbl, h⟩
+    unfold orderRawPy at h
+    cases hs : pySorted (raw.map (fun e => labOf labs e.1)) with
+    | error e => rw [hs] at h; cases h
+    | ok vs =>
+      obtain ⟨c, hc, hall⟩ := key.mp ⟨vs, hs⟩
+      exact ⟨c, hc, fun e he => hall _ (List.mem_map.mpr ⟨e, he, rfl⟩)⟩
+  · rintro ⟨c, hc, hall⟩
+    obtain ⟨vs, hs⟩ := key.mpr ⟨c, hc, by
+      intro v hv
+      obtain ⟨e, he, rfl⟩ := List.mem_map.mp hv
+      exact hall e he⟩
+    exact ⟨_, by unfold orderRawPy; rw [hs]⟩
+
+theorem mem_orderRawPy (labs : List ((Key × Key) × PyVal)) (raw tbl : List ((Key × Key) × List (Rat × Rat))) (q)
+    (h : orderRawPy labs raw = .ok tbl) (hq : q ∈ tbl) : q ∈ raw := by
+  unfold orderRawPy at h
+  cases hs : pySorted (raw.map (fun e => labOf labs e.1)) with
+  | error e => rw [hs] at h; cases h
+  | ok vs =>
+    rw [hs] at h
+    injection h with h
+    subst h
+    obtain ⟨v, _, hv⟩ := List.mem_filterMap.mp hq
+    exact List.mem_of_find?_eq_some hv
+
+/-- the table `raw_contrast` returns: sorted without `TypeError` iff all x labels are of one comparable class; every
+entry of the sorted table is an entry formed by the pairing (x label and pairs untouched) -/
+theorem rawContrastPy_sorted' (r : Result) (sels1 sels2) (pc : List Col) (x : XSpec) (span : Option Nat)
+    (labs : List ((Key × Key) × PyVal)) (raw : List ((Key × Key) × List (Rat × Rat)))
+    (hraw : rawContrast r sels1 sels2 pc x span true = .ok raw) :
+    (x ≠ .index → 2 ≤ raw.length →
+      ((∃ tbl, rawContrastPy r sels1 sels2 pc x span labs = .ok tbl) ↔
+        ∃ c, c ≠ PyClass.none ∧ ∀ e ∈ raw, pyClass (labOf labs e.1) = c)) ∧
+    (∀ tbl, rawContrastPy r sels1 sels2 pc x span labs = .ok tbl → ∀ q ∈ tbl, q ∈ raw) := by
+  unfold rawContrast at hraw
+  constructor
+  · intro hx h2
+    unfold rawContrastPy rawContrastPyWith
+    rw [hraw]
+    simp only [hx, if_false]
+    exact orderRawPy_ok_iff labs raw h2
+  · intro tbl h q hq
+    unfold rawContrastPy rawContrastPyWith at h
+    rw [hraw] at h
+    by_cases hx : x = .index
+    · simp only [hx, if_true] at h
+      injection h with h
+      subst h
+      exact mem_orderRaw none raw q (by simpa [orderRaw] using hq)
+    · simp only [hx, if_false] at h
+      exact mem_orderRawPy labs raw tbl q h hq
+
+/-- `int(n*0.05)` vs `n // 20` on the kernel's binary64 at the boundary `3·2^51` -/
+theorem int_mul_005_boundary' : ((6755399441055759 : Float) * 0.05 == 337769972052788) = true ∧
+    ((6755399441055739 : Float) * 0.05 < 337769972052787) = true ∧
+    ((6755399441055739 : Float) * 0.05 ≥ 337769972052786) = true ∧
+    ((6755399441055758 : Float) * 0.05 < 337769972052788) = true ∧
+    (6755399441055759 / 20 = 337769972052787) ∧ (6755399441055739 / 20 = 337769972052786) ∧
+    6755399441055744 = 3 * 2 ^ 51 := by decide +kernel
+
+/-! ## Part 15 (Phase 5, goal 2): `int(n*0.05) = n // 20` below `3·2^51` under the rounding law -/
+
+theorem repr53_nat (k : Nat) (hk : k < 9007199254740992) : Repr53 (k : Rat) :=
+  ⟨(k : Int), 0, by omega, by simp⟩
+
+theorem repr53_sixteenth (k : Nat) (hk : 16 * k + 15 < 9007199254740992) : Repr53 ((k : Rat) + 15 / 16) :=
+  ⟨((16 * k + 15 : Nat) : Int), 4, by omega, by push_cast; ring⟩
+
+theorem int_mul_005_eq_div20' (fl : Rat → Rat) (h : FloatLaw fl) (n : Nat) (hn : n < int005Bound) :
+    (((n / 20 : Nat) : Rat) ≤ fl ((n : Rat) * c05)) ∧ fl ((n : Rat) * c05) < ((n / 20 : Nat) : Rat) + 1 := by
+  unfold int005Bound at hn
+  have hdiv : n = 20 * (n / 20) + n % 20 := (Nat.div_add_mod n 20).symm
+  have hr : n % 20 ≤ 19 := by omega
+  generalize hk : n / 20 = k at *
+  generalize hrr : n % 20 = r at *
+  have hnq : (n : Rat) = 20 * (k : Rat) + (r : Rat) := by exact_mod_cast hdiv
+  have hrq : (r : Rat) ≤ 19 := by exact_mod_cast hr
+  have hr0 : (0 : Rat) ≤ (r : Rat) := by exact_mod_cast Nat.zero_le r
+  have hk0 : (0 : Rat) ≤ (k : Rat) := by exact_mod_cast Nat.zero_le k
+  have hnb : (n : Rat) < 6755399441055744 := by exact_mod_cast hn
+  have hx : (n : Rat) * c05 = (n : Rat) / 20 + (n : Rat) / 360287970189639680 := by unfold c05; ring
+  constructor
+  · apply h.below _ _ (repr53_nat k (by omega))
+    rw [hx, hnq]; linarith
+  · have hrep := repr53_sixteenth k (by omega)
+    by_cases hc : (n : Rat) * c05 ≤ (k : Rat) + 15 / 16
+    · have := h.above _ _ hrep hc
+      linarith
+    · have hlt : (k : Rat) + 15 / 16 ≤ (n : Rat) * c05 := le_of_lt (not_le.mp hc)
+      have := h.near _ _ hrep hlt
+      have hup : (n : Rat) * c05 < (k : Rat) + 31 / 32 := by rw [hx]; linarith
+      linarith
+
+theorem int_mul_005_floor' (fl : Rat → Rat) (h : FloatLaw fl) (n : Nat) (hn : n < int005Bound) :
+    ⌊fl ((n : Rat) * c05)⌋ = ((n / 20 : Nat) : Int) := by
+  obtain ⟨h1, h2⟩ := int_mul_005_eq_div20' fl h n hn
+  rw [Int.floor_eq_iff]
+  exact ⟨by exact_mod_cast h1, by exact_mod_cast h2⟩
+
+
+theorem floatLaw_id : FloatLaw (fun x => x) :=
+  ⟨fun _ _ _ h => h, fun _ _ _ h => h, fun x y _ h => by linarith⟩
+
+theorem errEveryDefault_eq (n : Nat) : errEveryDefault n = max (n / 20) 1 := by
+  simp [errEveryDefault, errEveryOf]
+
+/-! ## Part 16 (Phase 5): translator obligations for defaults and the `_confidence` dispatch -/
+
+theorem analysis_defaults_match' : Coba.Generated.C18.analysisDefaults = analysisDefaultsM := by decide
+
+theorem confidence_dispatch_match' : Coba.Generated.C18.confDispatch = confDispatchM ∧
+    Coba.Generated.C18.confDispatch.map (·.1) = errNamesM := by decide
 
 end Coba.C18
